@@ -64,7 +64,7 @@ fn start(kinds: Vec<(u32, OpKind)>) -> BoxedStrategy<Ev> {
                 OpKind::Unsub(_) => OpKind::Unsub(n),
                 k => k,
             };
-            Ev::Start { h: h * 64, kind }
+            Ev::Start { h: h * 64, kind, settle: false }
         })
         .boxed()
 }
@@ -74,6 +74,45 @@ fn in_publish(qos: BoxedStrategy<u8>, pid: BoxedStrategy<u16>, target: BoxedStra
         .prop_map(|(qos, dup, retain, pid, target, payload_len)| {
             Ev::In(Inbound::Publish { qos, dup, retain, pid, target, payload_len })
         })
+        .boxed()
+}
+
+/// subscribe + SUBACK + stream(): a subscription whose stream exists (macro event)
+fn sub_ready() -> BoxedStrategy<Vec<Ev>> {
+    (0u8..4, any::<bool>())
+        .prop_map(|(n, with_stream)| {
+            let mut v = vec![
+                Ev::Start { h: 0, kind: OpKind::Sub(n), settle: false },
+                Ev::Settle,
+                Ev::In(Inbound::Ack { sel: 65535, deco: Deco { reason_string: true, ..Default::default() } }),
+                Ev::Settle,
+            ];
+            if with_stream {
+                v.push(Ev::MakeStream { sel: 65535 });
+            }
+            v
+        })
+        .boxed()
+}
+
+fn settled(e: Ev) -> Ev {
+    match e {
+        Ev::Start { h, kind, .. } => Ev::Start { h, kind, settle: true },
+        other => other,
+    }
+}
+
+fn flat(evs: Vec<Vec<Ev>>) -> Vec<Ev> {
+    evs.into_iter().flatten().collect()
+}
+
+fn one<S: Strategy<Value = Ev> + 'static>(e: S) -> BoxedStrategy<Vec<Ev>> {
+    e.prop_map(|x| vec![x]).boxed()
+}
+
+fn scenario_v(rm: BoxedStrategy<Option<u16>>, ev: BoxedStrategy<Vec<Ev>>, len: std::ops::Range<usize>) -> BoxedStrategy<Scenario> {
+    (rm, vec(ev, len))
+        .prop_map(|(receive_max, events)| Scenario { receive_max, max_packet_size: None, events: flat(events) })
         .boxed()
 }
 
@@ -89,7 +128,7 @@ fn target_any() -> BoxedStrategy<Target> {
 
 fn scenario(rm: BoxedStrategy<Option<u16>>, ev: BoxedStrategy<Ev>, len: std::ops::Range<usize>) -> BoxedStrategy<Scenario> {
     (rm, vec(ev, len))
-        .prop_map(|(receive_max, events)| Scenario { receive_max, events })
+        .prop_map(|(receive_max, events)| Scenario { receive_max, max_packet_size: None, events })
         .boxed()
 }
 
@@ -155,15 +194,15 @@ impl Property for C05 {
     }
 
     fn cases(tier: Tier) -> u32 {
-        tier.pick(4000, 100_000)
+        tier.pick(8000, 150_000)
     }
 
     fn exhaustive(tier: Tier, worker: usize, workers: usize) -> Box<dyn Iterator<Item = Scenario>> {
         let d = Deco { reason: 0, reason_string: true, user_props: 1, short: false };
         let alphabet = vec![
-            Ev::Start { h: 0, kind: OpKind::Pub1 },
-            Ev::Start { h: 0, kind: OpKind::Sub(0) },
-            Ev::Start { h: 0, kind: OpKind::Ping },
+            Ev::Start { h: 0, kind: OpKind::Pub1, settle: false },
+            Ev::Start { h: 0, kind: OpKind::Sub(0), settle: false },
+            Ev::Start { h: 0, kind: OpKind::Ping, settle: false },
             Ev::In(Inbound::Ack { sel: 0, deco: d }),
             Ev::In(Inbound::Ack { sel: 65535, deco: d }),
             Ev::PollCtx,
@@ -172,7 +211,7 @@ impl Property for C05 {
         ];
         Box::new(
             sequences(alphabet, tier.pick(5, 7), worker, workers)
-                .map(|events| Scenario { receive_max: None, events }),
+                .map(|events| Scenario { receive_max: None, max_packet_size: None, events }),
         )
     }
 
@@ -233,13 +272,14 @@ impl Property for C06 {
         (vec(ev, 1..tier.pick(40, 120)))
             .prop_map(|evs| Scenario {
                 receive_max: None,
+                max_packet_size: None,
                 events: evs.into_iter().flatten().collect(),
             })
             .boxed()
     }
 
     fn cases(tier: Tier) -> u32 {
-        tier.pick(6000, 100_000)
+        tier.pick(20_000, 150_000)
     }
 
     fn assumptions() -> Vec<String> {
@@ -286,18 +326,21 @@ impl Property for C07 {
 
     fn strategy(tier: Tier) -> BoxedStrategy<Scenario> {
         let ev = prop_oneof![
-            4 => start(vec![(5, OpKind::Sub(0)), (1, OpKind::Unsub(0)), (1, OpKind::Pub1)]),
-            4 => ack(deco_ok()),
-            9 => in_publish((0u8..3).boxed(), Just(0u16).boxed(), target_any()),
-            1 => Just(Ev::In(Inbound::Pubrel { pid: 1, known: true })),
-            6 => stream_events(),
+            4 => sub_ready(),
+            3 => one(start(vec![(5, OpKind::Sub(0)), (1, OpKind::Unsub(0)), (1, OpKind::Pub1)])),
+            4 => one(ack(deco_ok())),
+            12 => one(in_publish((0u8..3).boxed(), Just(0u16).boxed(), target_any())),
+            1 => Just(vec![Ev::In(Inbound::Pubrel { pid: 1, known: true })]),
+            3 => one(sel().prop_map(|sel| Ev::MakeStream { sel })),
+            4 => one(sel().prop_map(|sel| Ev::PollStream { sel })),
+            3 => one(sel().prop_map(|sel| Ev::DropStream { sel })),
         ]
         .boxed();
-        scenario(Just(None).boxed(), ev, 1..tier.pick(50, 150))
+        scenario_v(Just(None).boxed(), ev, 1..tier.pick(40, 120))
     }
 
     fn cases(tier: Tier) -> u32 {
-        tier.pick(6000, 100_000)
+        tier.pick(20_000, 150_000)
     }
 
     fn assumptions() -> Vec<String> {
@@ -343,19 +386,26 @@ impl Property for C08 {
 
     fn strategy(tier: Tier) -> BoxedStrategy<Scenario> {
         let ev = prop_oneof![
-            3 => start(vec![(3, OpKind::Sub(0)), (1, OpKind::Pub1), (1, OpKind::Pub2), (1, OpKind::Ping)]),
-            3 => ack(deco()),
-            10 => in_publish((0u8..3).boxed(), Just(0u16).boxed(), target_any()),
-            3 => (1u16..5, any::<bool>()).prop_map(|(pid, known)| Ev::In(Inbound::Pubrel { pid, known })),
-            2 => stream_events(),
-            1 => sel().prop_map(|sel| Ev::DropOp { sel }),
+            2 => sub_ready(),
+            3 => one(start(vec![(3, OpKind::Sub(0)), (1, OpKind::Pub1), (1, OpKind::Pub2), (1, OpKind::Ping)])),
+            3 => one(ack(deco())),
+            10 => one(in_publish((0u8..3).boxed(), Just(0u16).boxed(), target_any())),
+            3 => one((1u16..5, any::<bool>()).prop_map(|(pid, known)| Ev::In(Inbound::Pubrel { pid, known }))),
+            // a PUBREL sent twice in a row (the broker lost the PUBCOMP)
+            1 => (1u16..5).prop_map(|pid| vec![
+                Ev::In(Inbound::Publish { qos: 2, dup: false, retain: false, pid, target: Target::Sub(0), payload_len: 0 }),
+                Ev::In(Inbound::Pubrel { pid, known: false }),
+                Ev::In(Inbound::Pubrel { pid, known: false }),
+            ]),
+            2 => one(stream_events()),
+            1 => one(sel().prop_map(|sel| Ev::DropOp { sel })),
         ]
         .boxed();
-        scenario(Just(None).boxed(), ev, 1..tier.pick(50, 150))
+        scenario_v(Just(None).boxed(), ev, 1..tier.pick(40, 120))
     }
 
     fn cases(tier: Tier) -> u32 {
-        tier.pick(6000, 100_000)
+        tier.pick(20_000, 150_000)
     }
 
     fn assumptions() -> Vec<String> {
@@ -386,7 +436,7 @@ pub struct C09;
 
 fn c09_prologue() -> Vec<Ev> {
     vec![
-        Ev::Start { h: 0, kind: OpKind::Sub(0) },
+        Ev::Start { h: 0, kind: OpKind::Sub(0), settle: false },
         Ev::In(Inbound::Ack { sel: 0, deco: Deco::default() }),
         Ev::MakeStream { sel: 0 },
     ]
@@ -411,13 +461,13 @@ impl Property for C09 {
             .prop_map(|evs| {
                 let mut events = c09_prologue();
                 events.extend(evs);
-                Scenario { receive_max: None, events }
+                Scenario { receive_max: None, max_packet_size: None, events }
             })
             .boxed()
     }
 
     fn cases(tier: Tier) -> u32 {
-        tier.pick(3000, 60_000)
+        tier.pick(10_000, 100_000)
     }
 
     fn exhaustive(tier: Tier, worker: usize, workers: usize) -> Box<dyn Iterator<Item = Scenario>> {
@@ -435,7 +485,7 @@ impl Property for C09 {
         Box::new(sequences(alphabet, tier.pick(6, 8), worker, workers).map(|evs| {
             let mut events = c09_prologue();
             events.extend(evs);
-            Scenario { receive_max: None, events }
+            Scenario { receive_max: None, max_packet_size: None, events }
         }))
     }
 
@@ -488,16 +538,16 @@ impl Property for C10 {
     }
 
     fn cases(tier: Tier) -> u32 {
-        tier.pick(6000, 100_000)
+        tier.pick(20_000, 150_000)
     }
 
     fn exhaustive(tier: Tier, worker: usize, workers: usize) -> Box<dyn Iterator<Item = Scenario>> {
         let ok = Deco::default();
         let failing = Deco { reason: 2, ..Default::default() }; // index 2 = 0x80 in PUBACK/PUBREC tables
         let alphabet = vec![
-            Ev::Start { h: 0, kind: OpKind::Pub1 },
-            Ev::Start { h: 0, kind: OpKind::Pub2 },
-            Ev::Start { h: 0, kind: OpKind::Pub0 },
+            Ev::Start { h: 0, kind: OpKind::Pub1, settle: false },
+            Ev::Start { h: 0, kind: OpKind::Pub2, settle: false },
+            Ev::Start { h: 0, kind: OpKind::Pub0, settle: false },
             Ev::In(Inbound::Ack { sel: 0, deco: ok }),
             Ev::In(Inbound::Ack { sel: 0, deco: failing }),
             Ev::In(Inbound::Ack { sel: 65535, deco: ok }),
@@ -506,8 +556,8 @@ impl Property for C10 {
         let a2 = alphabet.clone();
         Box::new(
             sequences(alphabet, depth, worker, workers)
-                .map(|events| Scenario { receive_max: Some(1), events })
-                .chain(sequences(a2, depth, worker, workers).map(|events| Scenario { receive_max: Some(2), events })),
+                .map(|events| Scenario { receive_max: Some(1), max_packet_size: None, events })
+                .chain(sequences(a2, depth, worker, workers).map(|events| Scenario { receive_max: Some(2), max_packet_size: None, events })),
         )
     }
 
@@ -552,7 +602,9 @@ fn mixed_history(tier: Tier) -> BoxedStrategy<Vec<Ev>> {
         3 => sel().prop_map(|sel| Ev::PollOp { sel }),
         5 => Just(Ev::Settle),
     ];
-    vec(ev, 0..tier.pick(24, 60)).boxed()
+    vec(prop_oneof![9 => ev.prop_map(|e| vec![e]), 1 => sub_ready()], 0..tier.pick(24, 60))
+        .prop_map(flat)
+        .boxed()
 }
 
 impl Property for C14 {
@@ -562,12 +614,12 @@ impl Property for C14 {
 
     fn strategy(tier: Tier) -> BoxedStrategy<Scenario> {
         (rm_small(), mixed_history(tier))
-            .prop_map(|(receive_max, events)| Scenario { receive_max, events })
+            .prop_map(|(receive_max, events)| Scenario { receive_max, max_packet_size: None, events })
             .boxed()
     }
 
     fn cases(tier: Tier) -> u32 {
-        tier.pick(1500, 20_000)
+        tier.pick(4000, 40_000)
     }
 
     fn assumptions() -> Vec<String> {
@@ -580,7 +632,7 @@ impl Property for C14 {
         for k in 0..=case.events.len() {
             let mut events: Vec<Ev> = case.events[..k].to_vec();
             events.push(Ev::DropCtx);
-            let scn = Scenario { receive_max: case.receive_max, events };
+            let scn = Scenario { receive_max: case.receive_max, max_packet_size: None, events };
             let out = run(&scn, &cfg);
             if out.stats.phases_at_drop.len() >= 2 || out.stats.stream_buffered_at_drop {
                 o.nontrivial = true;
@@ -603,7 +655,7 @@ impl Property for C14 {
             events.push(Ev::Terminate(Cause::Eof));
             events.push(Ev::Settle);
             events.push(Ev::DropCtx);
-            let scn = Scenario { receive_max: case.receive_max, events };
+            let scn = Scenario { receive_max: case.receive_max, max_packet_size: None, events };
             let out = run(&scn, &cfg);
             o.class("drop-after-run-returned");
             if let Some(mut f) = failure_for(&out, &["C14/"]) {
@@ -625,6 +677,7 @@ pub struct C15;
 fn strip_cancellations(s: &Scenario) -> Scenario {
     Scenario {
         receive_max: s.receive_max,
+        max_packet_size: s.max_packet_size,
         events: s
             .events
             .iter()
@@ -641,7 +694,7 @@ impl Property for C15 {
 
     fn strategy(tier: Tier) -> BoxedStrategy<Scenario> {
         let ev = prop_oneof![
-            7 => start(vec![(3, OpKind::Pub1), (4, OpKind::Pub2), (2, OpKind::Sub(0)), (1, OpKind::Unsub(0)), (1, OpKind::Ping)]).prop_map(|e| vec![e, Ev::Settle]),
+            7 => start(vec![(3, OpKind::Pub1), (4, OpKind::Pub2), (2, OpKind::Sub(0)), (1, OpKind::Unsub(0)), (1, OpKind::Ping)]).prop_map(|e| vec![settled(e), Ev::Settle]),
             2 => start(vec![(1, OpKind::Pub1), (1, OpKind::Pub2), (1, OpKind::Sub(0))]).prop_map(|e| vec![e]),
             8 => ack(deco()).prop_map(|e| vec![e, Ev::Settle]),
             3 => ack(deco()).prop_map(|e| vec![e, Ev::PollCtx]),
@@ -655,20 +708,21 @@ impl Property for C15 {
         (prop::sample::select(vec![Some(1u16), Some(2), Some(3), Some(5), None]), vec(ev, 1..tier.pick(40, 120)))
             .prop_map(|(receive_max, evs)| Scenario {
                 receive_max,
+                max_packet_size: None,
                 events: evs.into_iter().flatten().collect(),
             })
             .boxed()
     }
 
     fn cases(tier: Tier) -> u32 {
-        tier.pick(5000, 80_000)
+        tier.pick(20_000, 150_000)
     }
 
     fn exhaustive(tier: Tier, worker: usize, workers: usize) -> Box<dyn Iterator<Item = Scenario>> {
         let ok = Deco::default();
         let alphabet = vec![
-            Ev::Start { h: 0, kind: OpKind::Pub2 },
-            Ev::Start { h: 0, kind: OpKind::Pub1 },
+            Ev::Start { h: 0, kind: OpKind::Pub2, settle: true },
+            Ev::Start { h: 0, kind: OpKind::Pub1, settle: true },
             Ev::In(Inbound::Ack { sel: 0, deco: ok }),
             Ev::PollCtx,
             Ev::PollOp { sel: 0 },
@@ -678,7 +732,7 @@ impl Property for C15 {
         ];
         Box::new(
             sequences(alphabet, tier.pick(5, 7), worker, workers)
-                .map(|events| Scenario { receive_max: Some(1), events }),
+                .map(|events| Scenario { receive_max: Some(1), max_packet_size: None, events }),
         )
     }
 
@@ -737,6 +791,10 @@ pub enum C13Case {
 fn cause() -> BoxedStrategy<Cause> {
     prop_oneof![
         3 => gen::disconnect_spec(false).prop_map(Cause::UserDisconnect),
+        1 => (gen::disconnect_spec(false), 100usize..600).prop_map(|(mut d, n)| {
+            d.reason_string = Some(gen::make_string(n, 0, 1));
+            Cause::UserDisconnect(d)
+        }),
         4 => (gen::server_disconnect(false, prop::sample::select(rc::SERVER_DISCONNECT_REASONS).boxed()), any::<bool>()).prop_map(|(d, s)| Cause::ServerDisconnect(d, s)),
         2 => (gen::server_disconnect(false, Just(0u8).boxed()), any::<bool>()).prop_map(|(d, s)| Cause::ServerDisconnect(d, s)),
         2 => Just(Cause::Eof),
@@ -763,15 +821,23 @@ impl Property for C13 {
 
     fn strategy(tier: Tier) -> BoxedStrategy<C13Case> {
         let ev = prop_oneof![
-            6 => start(all_pub_sub()),
-            5 => ack(deco()),
-            3 => in_publish((0u8..3).boxed(), Just(0u16).boxed(), target_any()),
-            3 => stream_events(),
-            1 => Just(Ev::CloneHandle),
+            2 => sub_ready(),
+            6 => one(start(all_pub_sub())),
+            5 => one(ack(deco())),
+            3 => one(in_publish((0u8..3).boxed(), Just(0u16).boxed(), target_any())),
+            3 => one(stream_events()),
+            1 => Just(vec![Ev::CloneHandle]),
         ]
         .boxed();
-        let run_case = (scenario(Just(None).boxed(), ev, 0..tier.pick(24, 60)), cause())
-            .prop_map(|(prefix, cause)| C13Case::Run { prefix, cause });
+        let run_case = (
+            scenario_v(Just(None).boxed(), ev, 0..tier.pick(20, 50)),
+            cause(),
+            prop_oneof![3 => Just(None), 1 => (150u32..400).prop_map(Some)],
+        )
+            .prop_map(|(mut prefix, cause, m)| {
+                prefix.max_packet_size = m;
+                C13Case::Run { prefix, cause }
+            });
         let conn_case = (
             gen::connack(false, prop::sample::select(rc::CONNACK_REASONS).boxed(), false),
             proptest::option::weighted(0.25, gen::server_auth(false)),
@@ -788,7 +854,7 @@ impl Property for C13 {
     }
 
     fn cases(tier: Tier) -> u32 {
-        tier.pick(5000, 80_000)
+        tier.pick(20_000, 150_000)
     }
 
     fn assumptions() -> Vec<String> {
@@ -807,7 +873,10 @@ impl Property for C13 {
                 scn.events.push(Ev::Terminate(cause.clone()));
                 scn.events.push(Ev::Settle);
                 let out = run(&scn, &SimCfg::default());
-                o.nontrivial = out.stats.cause_with_outstanding || out.stats.cause_with_stream;
+                o.nontrivial = out.stats.cause_with_outstanding || out.stats.cause_with_stream || out.stats.oversized_disconnect;
+                if out.stats.oversized_disconnect {
+                    o.class("user-disconnect-refused-as-oversized");
+                }
                 o.class(format!("cause-{}", cause_name(cause)));
                 if out.stats.cause_with_outstanding {
                     o.class("ops-outstanding-at-cause");
@@ -815,7 +884,7 @@ impl Property for C13 {
                 if out.stats.cause_with_stream {
                     o.class("stream-open-at-cause");
                 }
-                o.fail = failure_for(&out, &["C13/"]);
+                o.fail = failure_for(&out, &["C13/", "C05/wrong-completion/ping", "C05/not-completed/ping"]);
             }
             C13Case::Connect { connack, auth, cut, err } => {
                 o.class("connect-phase");
@@ -944,7 +1013,7 @@ impl Property for C16 {
     }
 
     fn cases(tier: Tier) -> u32 {
-        tier.pick(1200, 30_000)
+        tier.pick(3000, 40_000)
     }
 
     fn quick_profiles() -> &'static [&'static str] {
@@ -963,6 +1032,7 @@ impl Property for C16 {
         // DropStream makes "what was lost" depend on buffering: remove it here
         let base = Scenario {
             receive_max: None,
+            max_packet_size: None,
             events: case.scn.events.iter().filter(|e| !matches!(e, Ev::DropStream { .. })).cloned().collect(),
         };
         let mut with_spurious = base.clone();
